@@ -234,6 +234,18 @@ def lean_gate(res, module, theorems):
     if bad:
         res.violation("theorem(s) no longer check or use extra axioms", {"kind": "lean-axioms", "bad": bad, "out": txt[-3000:]}, found=False)
         return False
+    if getattr(res, "tier", "quick") == "thorough":
+        # independent re-check of the compiled declarations (one module per call): the property module and every
+        # lemma module of the library
+        mods = [module] + sorted("Parmcb.Lemmas." + f[:-5] for f in os.listdir(os.path.join(LEAN, "Parmcb", "Lemmas")) if f.endswith(".lean"))
+        failed = []
+        for m in mods:
+            p = subprocess.run(["lake", "env", "leanchecker", m], cwd=LEAN, capture_output=True, text=True)
+            if p.returncode != 0: failed.append((m, (p.stdout + p.stderr)[-500:]))
+        res.coverage["leanchecker"] = {"modules": len(mods), "failed": [m for m, _ in failed]}
+        if failed:
+            res.violation("leanchecker rejects compiled module(s)", {"kind": "leanchecker", "failed": failed}, found=False)
+            return False
     return True
 
 def parse_driver(lines):
